@@ -719,3 +719,19 @@ func TestD35_SumBigValuesBeyond64Bits(t *testing.T) {
 		t.Errorf("SumBigValues of -2^70 = %v", got)
 	}
 }
+
+// #36 C16: ToDense on 32-bit targets. Fails only when run with GOARCH=386 (or arm) on the unrepaired tree.
+func TestD36_ToDenseOn32BitTargets(t *testing.T) {
+	defer func() {
+		if e := recover(); e != nil {
+			t.Fatalf("ToDense panicked: %v", e)
+		}
+	}()
+	bm := roaring.BitmapOf(1, 1<<31+5, 0xFFFFFFFF)
+	bm.AddRange(1<<31+100000, 1<<31+300000)
+	bm.AddRange(3<<30, 3<<30+70000)
+	bm.RunOptimize()
+	if !roaring.FromDense(bm.ToDense(), true).Equals(bm) {
+		t.Fatal("dense round trip differs")
+	}
+}
